@@ -1,6 +1,8 @@
 package render
 
 import (
+	"sync"
+
 	"github.com/osteele/liquid/parser"
 )
 
@@ -10,6 +12,9 @@ type Config struct {
 	grammar
 	Cache           map[string][]byte
 	StrictVariables bool
+	// cacheMu guards Cache: templates may be registered while others are rendered. It is a pointer because a
+	// Config is copied for every render; all copies share the map and therefore the lock.
+	cacheMu *sync.RWMutex
 	// fileDepth counts the RenderFile calls (includes) that the current render is nested in
 	fileDepth int
 }
@@ -29,5 +34,24 @@ func NewConfig() Config {
 		tags:      map[string]TagCompiler{},
 		blockDefs: map[string]*blockSyntax{},
 	}
-	return Config{Config: parser.NewConfig(g), grammar: g, Cache: map[string][]byte{}}
+	return Config{Config: parser.NewConfig(g), grammar: g, Cache: map[string][]byte{}, cacheMu: new(sync.RWMutex)}
+}
+
+// CacheSource registers source as the content of path, for {% include %}. It keeps a copy of the source.
+func (c *Config) CacheSource(path string, source []byte) {
+	if c.cacheMu != nil {
+		c.cacheMu.Lock()
+		defer c.cacheMu.Unlock()
+	}
+	c.Cache[path] = append([]byte(nil), source...)
+}
+
+// cachedSource returns the source registered for path.
+func (c *Config) cachedSource(path string) ([]byte, bool) {
+	if c.cacheMu != nil {
+		c.cacheMu.RLock()
+		defer c.cacheMu.RUnlock()
+	}
+	source, ok := c.Cache[path]
+	return source, ok
 }
